@@ -162,6 +162,51 @@ class ClockSeam:
         return clock
 
 
+class LogSeam:
+    """Run-time configuration the deployment owns: the logging level of the `prtpy.*` loggers.
+    Records are formatted (so that %-formatting and __str__/__repr__ of the logged objects really run)
+    into a sink that writes nowhere. level: None (library default: nothing is emitted) | "INFO" | "DEBUG"."""
+
+    class _Sink:
+        level = 0
+
+        def __init__(self, seam):
+            self.seam = seam
+
+        def handle(self, record):
+            try:
+                self.seam.chars += len(record.getMessage())
+                self.seam.records += 1
+            except Exception:
+                self.seam.format_errors += 1      # what logging.Handler.handleError would swallow as well
+            return True
+
+    def __init__(self, package="prtpy"):
+        self.package = package
+        self.records = 0
+        self.chars = 0
+        self.format_errors = 0
+        self._sink = None
+
+    def configure(self, level):
+        import logging
+        lg = logging.getLogger(self.package)
+        if self._sink is not None:
+            try:
+                lg.handlers.remove(self._sink)
+            except ValueError:
+                pass
+            self._sink = None
+        if level is None:
+            lg.setLevel(logging.NOTSET)
+            lg.propagate = True
+            return
+        self._sink = LogSeam._Sink(self)
+        lg.handlers.append(self._sink)
+        lg.setLevel(getattr(logging, level))
+        lg.propagate = False
+
+
 class FaultyValueOf:
     """valueof over a mapping (or identity) that raises InjectedFault at its k-th invocation.
 
@@ -200,6 +245,10 @@ class SimSolver:
                                                    the solve "takes" D simulated seconds: if the max_seconds that
                                                    the caller forwarded is < D the time-out status is reported
       optional "preprocess": 0|1|-1                forced on the model before solving (discriminator for CBC's own faults)
+      optional "x_noise": {"seed":s,"eps":e}       the solution values read back through mip.Var.x are off by up to e (< the solver's
+                                                   integrality tolerance, CBC: 1e-6) in a direction fixed by (s, variable index): a MIP
+                                                   solver returns integer variables only up to that tolerance (0.9999999 for 1). The
+                                                   verdict stays whatever the mode says (OPTIMAL for "real").
     """
 
     def __init__(self):
@@ -207,6 +256,7 @@ class SimSolver:
         self.calls = 0
         self.fired = {}
         self.last_forwarded_max_seconds = None
+        self._noise_counted = False
         self._installed = False
 
     def install(self):
@@ -221,6 +271,21 @@ class SimSolver:
             return sim._optimize(model, args, kwargs)
         optimize.__name__ = "optimize"
         mip.Model.optimize = optimize
+        # solution read-back seam: mip.Var.x (class-level property)
+        orig_x = mip.Var.x.fget
+        self._orig_x = orig_x
+
+        def x(var):
+            v = orig_x(var)
+            nz = sim.mode.get("x_noise") if sim.mode else None
+            if nz and v is not None:
+                h = _noise_unit(nz["seed"], var.idx)
+                if not sim._noise_counted:
+                    sim._noise_counted = True
+                    sim._fire("solver_x_within_integrality_tolerance")
+                return v + nz["eps"] * h
+            return v
+        mip.Var.x = property(x, doc=mip.Var.x.__doc__)
         self._installed = True
 
     def use(self, mode):
@@ -232,6 +297,7 @@ class SimSolver:
     def _optimize(self, model, args, kwargs):
         mip = self.mip
         self.calls += 1
+        self._noise_counted = False
         kwargs = dict(kwargs)
         args = list(args)
         max_seconds = kwargs.get("max_seconds", args[0] if args else float("inf"))
@@ -275,6 +341,14 @@ class SimSolver:
                 return st.FEASIBLE
             return st.NO_SOLUTION_FOUND
         raise ValueError("unknown solver mode " + repr(mode))
+
+
+def _noise_unit(seed, idx):
+    """Deterministic value in {-1, -0.5, +0.5, +1} for (seed, variable index); most often negative,
+    because it is the value just BELOW an integer that a truncating reader gets wrong."""
+    import hashlib
+    b = hashlib.sha256(("%d:%d" % (seed, idx)).encode()).digest()[0]
+    return (-1.0, -1.0, -0.5, -1.0, 0.5, -1.0, 1.0, -0.5)[b % 8]
 
 
 def warm_up_solver():
